@@ -164,23 +164,23 @@ theorem Safe.intro {c : Call} (hb : ¬ Bad c) (hs : ∀ c', Sub c c' → Safe c'
 /-! ### the simulation relation on interpreter states -/
 
 section
-variable {mode : Nat} {cipher rest : List UInt8}
+variable {dl mode : Nat} {cipher rest : List UInt8}
 
 /-- the two interpreter states agree in everything but the scanner, and the scanners are `Sim`-related -/
-def StSim (mode : Nat) (cipher rest : List UInt8) (a b : State) : Prop :=
-  Sim mode cipher rest a.scanner b.scanner ∧ a = { b with scanner := a.scanner }
+def StSim (dl mode : Nat) (cipher rest : List UInt8) (a b : State) : Prop :=
+  SimL dl mode cipher rest a.scanner b.scanner ∧ a = { b with scanner := a.scanner }
 
 /-- same result, related states -/
-def Same (mode : Nat) (cipher rest : List UInt8) (pa pb : State × Res) : Prop :=
-  pa.2 = pb.2 ∧ StSim mode cipher rest pa.1 pb.1
+def Same (dl mode : Nat) (cipher rest : List UInt8) (pa pb : State × Res) : Prop :=
+  pa.2 = pb.2 ∧ StSim dl mode cipher rest pa.1 pb.1
 
-theorem StSim.of_sim {b : State} {se : Scanner} (h : Sim mode cipher rest se b.scanner) :
-    StSim mode cipher rest { b with scanner := se } b := ⟨h, rfl⟩
+theorem StSim.of_sim {b : State} {se : Scanner} (h : SimL dl mode cipher rest se b.scanner) :
+    StSim dl mode cipher rest { b with scanner := se } b := ⟨h, rfl⟩
 
-theorem Same.mk' {a b : State} {r : Res} (h : StSim mode cipher rest a b) : Same mode cipher rest (a, r) (b, r) := ⟨rfl, h⟩
+theorem Same.mk' {a b : State} {r : Res} (h : StSim dl mode cipher rest a b) : Same dl mode cipher rest (a, r) (b, r) := ⟨rfl, h⟩
 
-theorem Same.elim {pa pb : State × Res} (h : Same mode cipher rest pa pb) :
-    ∃ sb se r, pa = ({ sb with scanner := se }, r) ∧ pb = (sb, r) ∧ Sim mode cipher rest se sb.scanner := by
+theorem Same.elim {pa pb : State × Res} (h : Same dl mode cipher rest pa pb) :
+    ∃ sb se r, pa = ({ sb with scanner := se }, r) ∧ pb = (sb, r) ∧ SimL dl mode cipher rest se sb.scanner := by
   obtain ⟨sa, ra⟩ := pa
   obtain ⟨sb, rb⟩ := pb
   obtain ⟨hr, hs1, hs2⟩ := h
@@ -188,41 +188,41 @@ theorem Same.elim {pa pb : State × Res} (h : Same mode cipher rest pa pb) :
   subst hr
   exact ⟨sb, sa.scanner, ra, by rw [← hs2], rfl, hs1⟩
 
-theorem StSim.elim {a b : State} (h : StSim mode cipher rest a b) :
-    ∃ se, a = { b with scanner := se } ∧ Sim mode cipher rest se b.scanner := ⟨a.scanner, h.2, h.1⟩
+theorem StSim.elim {a b : State} (h : StSim dl mode cipher rest a b) :
+    ∃ se, a = { b with scanner := se } ∧ SimL dl mode cipher rest se b.scanner := ⟨a.scanner, h.2, h.1⟩
 
 /-- what is proved for all functions of the mutual block at once -/
-structure AllSim (mode : Nat) (cipher rest : List UInt8) (f m : Nat) : Prop where
-  one : ∀ a b o e, StSim mode cipher rest a b → Safe (.one f m b o e) →
-    Same mode cipher rest (execOne f m a o e) (execOne f m b o e)
-  body : ∀ a b o e, StSim mode cipher rest a b → Safe (.body f m b o e) →
-    Same mode cipher rest (execBody f m a o e) (execBody f m b o e)
-  tail : ∀ a b o e c, StSim mode cipher rest a b → Safe (.tail f m b o e c) →
-    Same mode cipher rest (execTail f m a o e c) (execTail f m b o e c)
-  run : ∀ a b r o i n, StSim mode cipher rest a b → Safe (.run f m b r o i n) →
-    Same mode cipher rest (runBody f m a r o i n) (runBody f m b r o i n)
-  call : ∀ a b id, StSim mode cipher rest a b → Safe (.call f m b id) →
-    Same mode cipher rest (callBuiltin f m a id) (callBuiltin f m b id)
-  forL : ∀ a b v i l p, StSim mode cipher rest a b → Safe (.forL f m b v i l p) →
-    Same mode cipher rest (forLoop f m a v i l p) (forLoop f m b v i l p)
-  rep : ∀ a b n p, StSim mode cipher rest a b → Safe (.rep f m b n p) →
-    Same mode cipher rest (repeatLoop f m a n p) (repeatLoop f m b n p)
-  loop : ∀ a b p, StSim mode cipher rest a b → Safe (.loop f m b p) →
-    Same mode cipher rest (loopLoop f m a p) (loopLoop f m b p)
-  fArr : ∀ a b r o i n p, StSim mode cipher rest a b → Safe (.fArr f m b r o i n p) →
-    Same mode cipher rest (forallArr f m a r o i n p) (forallArr f m b r o i n p)
-  fStr : ∀ a b r o i n p, StSim mode cipher rest a b → Safe (.fStr f m b r o i n p) →
-    Same mode cipher rest (forallStr f m a r o i n p) (forallStr f m b r o i n p)
-  fDict : ∀ a b d ks p, StSim mode cipher rest a b → Safe (.fDict f m b d ks p) →
-    Same mode cipher rest (forallDict f m a d ks p) (forallDict f m b d ks p)
-  sRun : ∀ a b, StSim mode cipher rest a b → Safe (.sRun f m b) →
-    Same mode cipher rest (scanRun f m a) (scanRun f m b)
-  sLoop : ∀ a b, StSim mode cipher rest a b → Safe (.sLoop f m b) →
-    Same mode cipher rest (scanLoop f m a) (scanLoop f m b)
+structure AllSim (dl mode : Nat) (cipher rest : List UInt8) (f m : Nat) : Prop where
+  one : ∀ a b o e, StSim dl mode cipher rest a b → Safe (.one f m b o e) →
+    Same dl mode cipher rest (execOne f m a o e) (execOne f m b o e)
+  body : ∀ a b o e, StSim dl mode cipher rest a b → Safe (.body f m b o e) →
+    Same dl mode cipher rest (execBody f m a o e) (execBody f m b o e)
+  tail : ∀ a b o e c, StSim dl mode cipher rest a b → Safe (.tail f m b o e c) →
+    Same dl mode cipher rest (execTail f m a o e c) (execTail f m b o e c)
+  run : ∀ a b r o i n, StSim dl mode cipher rest a b → Safe (.run f m b r o i n) →
+    Same dl mode cipher rest (runBody f m a r o i n) (runBody f m b r o i n)
+  call : ∀ a b id, StSim dl mode cipher rest a b → Safe (.call f m b id) →
+    Same dl mode cipher rest (callBuiltin f m a id) (callBuiltin f m b id)
+  forL : ∀ a b v i l p, StSim dl mode cipher rest a b → Safe (.forL f m b v i l p) →
+    Same dl mode cipher rest (forLoop f m a v i l p) (forLoop f m b v i l p)
+  rep : ∀ a b n p, StSim dl mode cipher rest a b → Safe (.rep f m b n p) →
+    Same dl mode cipher rest (repeatLoop f m a n p) (repeatLoop f m b n p)
+  loop : ∀ a b p, StSim dl mode cipher rest a b → Safe (.loop f m b p) →
+    Same dl mode cipher rest (loopLoop f m a p) (loopLoop f m b p)
+  fArr : ∀ a b r o i n p, StSim dl mode cipher rest a b → Safe (.fArr f m b r o i n p) →
+    Same dl mode cipher rest (forallArr f m a r o i n p) (forallArr f m b r o i n p)
+  fStr : ∀ a b r o i n p, StSim dl mode cipher rest a b → Safe (.fStr f m b r o i n p) →
+    Same dl mode cipher rest (forallStr f m a r o i n p) (forallStr f m b r o i n p)
+  fDict : ∀ a b d ks p, StSim dl mode cipher rest a b → Safe (.fDict f m b d ks p) →
+    Same dl mode cipher rest (forallDict f m a d ks p) (forallDict f m b d ks p)
+  sRun : ∀ a b, StSim dl mode cipher rest a b → Safe (.sRun f m b) →
+    Same dl mode cipher rest (scanRun f m a) (scanRun f m b)
+  sLoop : ∀ a b, StSim dl mode cipher rest a b → Safe (.sLoop f m b) →
+    Same dl mode cipher rest (scanLoop f m a) (scanLoop f m b)
 
-theorem step_execOne {f m : Nat} (ih : AllSim mode cipher rest f m) (a b : State) (o : Obj) (e : Bool)
-    (hs : StSim mode cipher rest a b) (hsafe : Safe (.one (f + 1) m b o e)) :
-    Same mode cipher rest (execOne (f + 1) m a o e) (execOne (f + 1) m b o e) := by
+theorem step_execOne {f m : Nat} (ih : AllSim dl mode cipher rest f m) (a b : State) (o : Obj) (e : Bool)
+    (hs : StSim dl mode cipher rest a b) (hsafe : Safe (.one (f + 1) m b o e)) :
+    Same dl mode cipher rest (execOne (f + 1) m a o e) (execOne (f + 1) m b o e) := by
   obtain ⟨se, rfl, hsim⟩ := hs.elim
   unfold execOne
   split
@@ -243,9 +243,9 @@ theorem step_execOne {f m : Nat} (ih : AllSim mode cipher rest f m) (a b : State
     subst he'
     exact ih.body { b with scanner := se } b o false ⟨hsim, rfl⟩ (hsafe.sub (Sub.one_f f m b o))
 
-theorem step_execBody {f m : Nat} (ih : AllSim mode cipher rest f m) (a b : State) (o : Obj) (e : Bool)
-    (hs : StSim mode cipher rest a b) (hsafe : Safe (.body (f + 1) m b o e)) :
-    Same mode cipher rest (execBody (f + 1) m a o e) (execBody (f + 1) m b o e) := by
+theorem step_execBody {f m : Nat} (ih : AllSim dl mode cipher rest f m) (a b : State) (o : Obj) (e : Bool)
+    (hs : StSim dl mode cipher rest a b) (hsafe : Safe (.body (f + 1) m b o e)) :
+    Same dl mode cipher rest (execBody (f + 1) m a o e) (execBody (f + 1) m b o e) := by
   obtain ⟨se, rfl, hsim⟩ := hs.elim
   unfold execBody
   dsimp only
@@ -264,10 +264,10 @@ def loopResult (p : State × Res) (next : State → State × Res) : State × Res
     | _ => (s1, r1)
 
 theorem same_loop {pa pb : State × Res} {na nb : State → State × Res}
-    (h1 : Same mode cipher rest pa pb)
-    (hn : ∀ sb se, pb = (sb, .ok) → Sim mode cipher rest se sb.scanner →
-      Same mode cipher rest (na { sb with scanner := se }) (nb sb)) :
-    Same mode cipher rest (loopResult pa na) (loopResult pb nb) := by
+    (h1 : Same dl mode cipher rest pa pb)
+    (hn : ∀ sb se, pb = (sb, .ok) → SimL dl mode cipher rest se sb.scanner →
+      Same dl mode cipher rest (na { sb with scanner := se }) (nb sb)) :
+    Same dl mode cipher rest (loopResult pa na) (loopResult pb nb) := by
   obtain ⟨sb, se1, r, rfl, rfl, hs1⟩ := h1.elim
   unfold loopResult
   dsimp only
@@ -276,9 +276,9 @@ theorem same_loop {pa pb : State × Res} {na nb : State → State × Res}
   · exact hn sb se1 rfl hs1
   · exact Same.mk' ⟨hs1, rfl⟩
 
-theorem step_repeatLoop {f m : Nat} (ih : AllSim mode cipher rest f m) (a b : State) (k : Nat) (p : Obj)
-    (hs : StSim mode cipher rest a b) (hsafe : Safe (.rep (f + 1) m b k p)) :
-    Same mode cipher rest (repeatLoop (f + 1) m a k p) (repeatLoop (f + 1) m b k p) := by
+theorem step_repeatLoop {f m : Nat} (ih : AllSim dl mode cipher rest f m) (a b : State) (k : Nat) (p : Obj)
+    (hs : StSim dl mode cipher rest a b) (hsafe : Safe (.rep (f + 1) m b k p)) :
+    Same dl mode cipher rest (repeatLoop (f + 1) m a k p) (repeatLoop (f + 1) m b k p) := by
   obtain ⟨se, rfl, hsim⟩ := hs.elim
   cases k with
   | zero => unfold repeatLoop; exact Same.mk' ⟨hsim, rfl⟩
@@ -288,18 +288,18 @@ theorem step_repeatLoop {f m : Nat} (ih : AllSim mode cipher rest f m) (a b : St
       (ih.one _ b p true ⟨hsim, rfl⟩ (hsafe.sub (Sub.rep_one f m b k p)))
       (fun sb se' hb hs' => ih.rep _ sb k p ⟨hs', rfl⟩ (hsafe.sub (Sub.rep_next f m b k p sb hb)))
 
-theorem step_loopLoop {f m : Nat} (ih : AllSim mode cipher rest f m) (a b : State) (p : Obj)
-    (hs : StSim mode cipher rest a b) (hsafe : Safe (.loop (f + 1) m b p)) :
-    Same mode cipher rest (loopLoop (f + 1) m a p) (loopLoop (f + 1) m b p) := by
+theorem step_loopLoop {f m : Nat} (ih : AllSim dl mode cipher rest f m) (a b : State) (p : Obj)
+    (hs : StSim dl mode cipher rest a b) (hsafe : Safe (.loop (f + 1) m b p)) :
+    Same dl mode cipher rest (loopLoop (f + 1) m a p) (loopLoop (f + 1) m b p) := by
   obtain ⟨se, rfl, hsim⟩ := hs.elim
   unfold loopLoop
   exact same_loop (na := fun s1 => loopLoop f m s1 p) (nb := fun s1 => loopLoop f m s1 p)
     (ih.one _ b p true ⟨hsim, rfl⟩ (hsafe.sub (Sub.loop_one f m b p)))
     (fun sb se' hb hs' => ih.loop _ sb p ⟨hs', rfl⟩ (hsafe.sub (Sub.loop_next f m b p sb hb)))
 
-theorem step_forLoop {f m : Nat} (ih : AllSim mode cipher rest f m) (a b : State) (v i l : Int) (p : Obj)
-    (hs : StSim mode cipher rest a b) (hsafe : Safe (.forL (f + 1) m b v i l p)) :
-    Same mode cipher rest (forLoop (f + 1) m a v i l p) (forLoop (f + 1) m b v i l p) := by
+theorem step_forLoop {f m : Nat} (ih : AllSim dl mode cipher rest f m) (a b : State) (v i l : Int) (p : Obj)
+    (hs : StSim dl mode cipher rest a b) (hsafe : Safe (.forL (f + 1) m b v i l p)) :
+    Same dl mode cipher rest (forLoop (f + 1) m a v i l p) (forLoop (f + 1) m b v i l p) := by
   obtain ⟨se, rfl, hsim⟩ := hs.elim
   unfold forLoop
   split
@@ -315,9 +315,9 @@ theorem step_forLoop {f m : Nat} (ih : AllSim mode cipher rest f m) (a b : State
         · exact Same.mk' ⟨hs', rfl⟩
         · exact ih.forL _ sb _ i l p ⟨hs', rfl⟩ (hsafe.sub (Sub.forL_next f m b v i l p sb hb)))
 
-theorem step_forallArr {f m : Nat} (ih : AllSim mode cipher rest f m) (a b : State) (r o i t : Nat) (p : Obj)
-    (hs : StSim mode cipher rest a b) (hsafe : Safe (.fArr (f + 1) m b r o i t p)) :
-    Same mode cipher rest (forallArr (f + 1) m a r o i t p) (forallArr (f + 1) m b r o i t p) := by
+theorem step_forallArr {f m : Nat} (ih : AllSim dl mode cipher rest f m) (a b : State) (r o i t : Nat) (p : Obj)
+    (hs : StSim dl mode cipher rest a b) (hsafe : Safe (.fArr (f + 1) m b r o i t p)) :
+    Same dl mode cipher rest (forallArr (f + 1) m a r o i t p) (forallArr (f + 1) m b r o i t p) := by
   obtain ⟨se, rfl, hsim⟩ := hs.elim
   cases t with
   | zero => unfold forallArr; exact Same.mk' ⟨hsim, rfl⟩
@@ -332,9 +332,9 @@ theorem step_forallArr {f m : Nat} (ih : AllSim mode cipher rest f m) (a b : Sta
         (fun sb se' hb hs' => ih.fArr _ sb r o (i + 1) t p ⟨hs', rfl⟩
           (hsafe.sub (Sub.fArr_next f m b r o i t p v sb hv hb)))
 
-theorem step_forallStr {f m : Nat} (ih : AllSim mode cipher rest f m) (a b : State) (r o i t : Nat) (p : Obj)
-    (hs : StSim mode cipher rest a b) (hsafe : Safe (.fStr (f + 1) m b r o i t p)) :
-    Same mode cipher rest (forallStr (f + 1) m a r o i t p) (forallStr (f + 1) m b r o i t p) := by
+theorem step_forallStr {f m : Nat} (ih : AllSim dl mode cipher rest f m) (a b : State) (r o i t : Nat) (p : Obj)
+    (hs : StSim dl mode cipher rest a b) (hsafe : Safe (.fStr (f + 1) m b r o i t p)) :
+    Same dl mode cipher rest (forallStr (f + 1) m a r o i t p) (forallStr (f + 1) m b r o i t p) := by
   obtain ⟨se, rfl, hsim⟩ := hs.elim
   cases t with
   | zero => unfold forallStr; exact Same.mk' ⟨hsim, rfl⟩
@@ -349,9 +349,9 @@ theorem step_forallStr {f m : Nat} (ih : AllSim mode cipher rest f m) (a b : Sta
         (fun sb se' hb hs' => ih.fStr _ sb r o (i + 1) t p ⟨hs', rfl⟩
           (hsafe.sub (Sub.fStr_next f m b r o i t p c sb hc hb)))
 
-theorem step_forallDict {f m : Nat} (ih : AllSim mode cipher rest f m) (a b : State) (d : Nat) (ks : List Name) (p : Obj)
-    (hs : StSim mode cipher rest a b) (hsafe : Safe (.fDict (f + 1) m b d ks p)) :
-    Same mode cipher rest (forallDict (f + 1) m a d ks p) (forallDict (f + 1) m b d ks p) := by
+theorem step_forallDict {f m : Nat} (ih : AllSim dl mode cipher rest f m) (a b : State) (d : Nat) (ks : List Name) (p : Obj)
+    (hs : StSim dl mode cipher rest a b) (hsafe : Safe (.fDict (f + 1) m b d ks p)) :
+    Same dl mode cipher rest (forallDict (f + 1) m a d ks p) (forallDict (f + 1) m b d ks p) := by
   obtain ⟨se, rfl, hsim⟩ := hs.elim
   cases ks with
   | nil => unfold forallDict; exact Same.mk' ⟨hsim, rfl⟩
@@ -368,9 +368,9 @@ theorem step_forallDict {f m : Nat} (ih : AllSim mode cipher rest f m) (a b : St
         (fun sb se' hb hs' => ih.fDict _ sb d ks p ⟨hs', rfl⟩
           (hsafe.sub (Sub.fDict_next f m b d k ks p v sb hv hb)))
 
-theorem step_runBody {f m : Nat} (ih : AllSim mode cipher rest f m) (a b : State) (r o i t : Nat)
-    (hs : StSim mode cipher rest a b) (hsafe : Safe (.run (f + 1) m b r o i t)) :
-    Same mode cipher rest (runBody (f + 1) m a r o i t) (runBody (f + 1) m b r o i t) := by
+theorem step_runBody {f m : Nat} (ih : AllSim dl mode cipher rest f m) (a b : State) (r o i t : Nat)
+    (hs : StSim dl mode cipher rest a b) (hsafe : Safe (.run (f + 1) m b r o i t)) :
+    Same dl mode cipher rest (runBody (f + 1) m a r o i t) (runBody (f + 1) m b r o i t) := by
   obtain ⟨se, rfl, hsim⟩ := hs.elim
   cases t with
   | zero => unfold runBody; exact Same.mk' ⟨hsim, rfl⟩
@@ -397,10 +397,10 @@ theorem withScanner_scanner {α : Type} (b : State) (m : Scan.SM α) :
   rfl
 
 theorem withScanner_sim {α : Type} {m : Scan.SM α} (hm : SimM m) {b : State} {se : Scanner}
-    (hsim : Sim mode cipher rest se b.scanner) (hne : ¬ Exhausted (withScanner b m).1.scanner) :
+    (hsim : SimL dl mode cipher rest se b.scanner) (hne : ¬ Exhausted (withScanner b m).1.scanner) :
     ∃ se', withScanner { b with scanner := se } m = ({ (withScanner b m).1 with scanner := se' }, (withScanner b m).2) ∧
-      Sim mode cipher rest se' (withScanner b m).1.scanner := by
-  rcases hm.1 mode cipher rest se b.scanner hsim with ⟨r, se', sp', h1, h2, h'⟩ | hex
+      SimL dl mode cipher rest se' (withScanner b m).1.scanner := by
+  rcases hm.1 dl mode cipher rest se b.scanner hsim with ⟨r, se', sp', h1, h2, h'⟩ | hex
   · refine ⟨se', ?_, ?_⟩
     · simp only [withScanner, h1, h2]
     · simp only [withScanner, h2]; exact h'
@@ -413,9 +413,9 @@ theorem objOfTok_sc (b : State) (sc : Scanner) (tok : Scan.Tok) :
 theorem objOfTok_scanner (b : State) (tok : Scan.Tok) : (objOfTok b tok).1.scanner = b.scanner := by
   cases tok <;> rfl
 
-theorem step_scanLoop {f m : Nat} (ih : AllSim mode cipher rest f m) (a b : State)
-    (hs : StSim mode cipher rest a b) (hsafe : Safe (.sLoop (f + 1) m b)) :
-    Same mode cipher rest (scanLoop (f + 1) m a) (scanLoop (f + 1) m b) := by
+theorem step_scanLoop {f m : Nat} (ih : AllSim dl mode cipher rest f m) (a b : State)
+    (hs : StSim dl mode cipher rest a b) (hsafe : Safe (.sLoop (f + 1) m b)) :
+    Same dl mode cipher rest (scanLoop (f + 1) m a) (scanLoop (f + 1) m b) := by
   obtain ⟨se, rfl, hsim⟩ := hs.elim
   obtain ⟨se1, e1, hs1⟩ := withScanner_sim SimM.scanToken hsim hsafe.here
   unfold scanLoop
@@ -428,7 +428,7 @@ theorem step_scanLoop {f m : Nat} (ih : AllSim mode cipher rest f m) (a b : Stat
   · exact Same.mk' ⟨hs1, rfl⟩
   · rename_i tok
     rw [objOfTok_sc]
-    have hs2 : Sim mode cipher rest se1 (objOfTok s1 tok).1.scanner := by rw [objOfTok_scanner]; exact hs1
+    have hs2 : SimL dl mode cipher rest se1 (objOfTok s1 tok).1.scanner := by rw [objOfTok_scanner]; exact hs1
     have h3 := ih.one { (objOfTok s1 tok).1 with scanner := se1 } (objOfTok s1 tok).1 (objOfTok s1 tok).2 false
       ⟨hs2, rfl⟩ (hsafe.sub (Sub.sLoop_one f m b s1 tok hb))
     generalize execOne f m { (objOfTok s1 tok).1 with scanner := se1 } (objOfTok s1 tok).2 false = pa at h3 ⊢
@@ -449,10 +449,10 @@ theorem scanRun_eq (f m : Nat) (s : State) :
   unfold scanRun scanStart
   rfl
 
-theorem scanStart_sim {b : State} {se : Scanner} (hsim : Sim mode cipher rest se b.scanner)
+theorem scanStart_sim {b : State} {se : Scanner} (hsim : SimL dl mode cipher rest se b.scanner)
     (hne : b.checkStart = true → ¬ Exhausted (withScanner b (Scan.peekN 2 3)).1.scanner) :
     ∃ se', scanStart { b with scanner := se } = ({ (scanStart b).1 with scanner := se' }, (scanStart b).2) ∧
-      Sim mode cipher rest se' (scanStart b).1.scanner := by
+      SimL dl mode cipher rest se' (scanStart b).1.scanner := by
   unfold scanStart
   dsimp only
   split
@@ -467,9 +467,9 @@ theorem scanStart_sim {b : State} {se : Scanner} (hsim : Sim mode cipher rest se
     all_goals exact ⟨se1, rfl, hs1⟩
   · exact ⟨se, rfl, hsim⟩
 
-theorem step_scanRun {f m : Nat} (ih : AllSim mode cipher rest f m) (a b : State)
-    (hs : StSim mode cipher rest a b) (hsafe : Safe (.sRun (f + 1) m b)) :
-    Same mode cipher rest (scanRun (f + 1) m a) (scanRun (f + 1) m b) := by
+theorem step_scanRun {f m : Nat} (ih : AllSim dl mode cipher rest f m) (a b : State)
+    (hs : StSim dl mode cipher rest a b) (hsafe : Safe (.sRun (f + 1) m b)) :
+    Same dl mode cipher rest (scanRun (f + 1) m a) (scanRun (f + 1) m b) := by
   obtain ⟨se, rfl, hsim⟩ := hs.elim
   have hne : b.checkStart = true → ¬ Exhausted (withScanner b (Scan.peekN 2 3)).1.scanner :=
     fun hc hex => hsafe.here ⟨hc, hex⟩
@@ -496,16 +496,16 @@ theorem enterLevel_sc (c : Bool) (b : State) (sc : Scanner) :
 theorem enterLevel_scanner (c : Bool) (b : State) : (enterLevel c b).scanner = b.scanner := by
   cases c <;> rfl
 
-theorem same_leave {c : Bool} {pa pb : State × Res} (h : Same mode cipher rest pa pb) :
-    Same mode cipher rest (leaveLevel c pa) (leaveLevel c pb) := by
+theorem same_leave {c : Bool} {pa pb : State × Res} (h : Same dl mode cipher rest pa pb) :
+    Same dl mode cipher rest (leaveLevel c pa) (leaveLevel c pb) := by
   obtain ⟨sb, se1, r, rfl, rfl, hs1⟩ := h.elim
   cases c
   · exact Same.mk' ⟨hs1, rfl⟩
   · exact Same.mk' ⟨hs1, rfl⟩
 
-theorem step_execTail {f m : Nat} (ih : AllSim mode cipher rest f m) (a b : State) (o : Obj) (e c : Bool)
-    (hs : StSim mode cipher rest a b) (hsafe : Safe (.tail (f + 1) m b o e c)) :
-    Same mode cipher rest (execTail (f + 1) m a o e c) (execTail (f + 1) m b o e c) := by
+theorem step_execTail {f m : Nat} (ih : AllSim dl mode cipher rest f m) (a b : State) (o : Obj) (e c : Bool)
+    (hs : StSim dl mode cipher rest a b) (hsafe : Safe (.tail (f + 1) m b o e c)) :
+    Same dl mode cipher rest (execTail (f + 1) m a o e c) (execTail (f + 1) m b o e c) := by
   obtain ⟨se, rfl, hsim⟩ := hs.elim
   unfold execTail
   dsimp only
@@ -556,7 +556,7 @@ theorem step_execTail {f m : Nat} (ih : AllSim mode cipher rest f m) (a b : Stat
             have ee : enterLevel c { b with scanner := se, numOps := b.numOps + 1 } =
                 { enterLevel c { b with numOps := b.numOps + 1 } with scanner := se } := by cases c <;> rfl
             rw [ee]
-            have hse : Sim mode cipher rest se (enterLevel c { b with numOps := b.numOps + 1 }).scanner := by
+            have hse : SimL dl mode cipher rest se (enterLevel c { b with numOps := b.numOps + 1 }).scanner := by
               rw [enterLevel_scanner]; exact hsim
             have h1 := ih.run { enterLevel c { b with numOps := b.numOps + 1 } with scanner := se }
               (enterLevel c { b with numOps := b.numOps + 1 }) ref off 0 (len - 1) ⟨hse, rfl⟩
@@ -575,9 +575,9 @@ theorem step_execTail {f m : Nat} (ih : AllSim mode cipher rest f m) (a b : Stat
       · exact Same.mk' ⟨hsim, rfl⟩
     · exact Same.mk' ⟨hsim, rfl⟩
 
-theorem readstringCore_sim (vm : VM) (d : Nat) {se sp : Scanner} (h : Sim mode cipher rest se sp) :
+theorem readstringCore_sim (vm : VM) (d : Nat) {se sp : Scanner} (h : SimL dl mode cipher rest se sp) :
     (∃ se', readstringCore vm se d = ((readstringCore vm sp d).1, se', (readstringCore vm sp d).2.2) ∧
-      Sim mode cipher rest se' (readstringCore vm sp d).2.1) ∨ Exhausted (readstringCore vm sp d).2.1 := by
+      SimL dl mode cipher rest se' (readstringCore vm sp d).2.1) ∨ Exhausted (readstringCore vm sp d).2.1 := by
   unfold readstringCore
   split
   · split
@@ -585,12 +585,12 @@ theorem readstringCore_sim (vm : VM) (d : Nat) {se sp : Scanner} (h : Sim mode c
       split
       · exact Or.inl ⟨se, rfl, h⟩
       · rename_i l _ _
-        rcases SimM.next.1 mode cipher rest se sp h with ⟨r1, se2, sp2, e1, e2, h2⟩ | hex
+        rcases SimM.next.1 dl mode cipher rest se sp h with ⟨r1, se2, sp2, e1, e2, h2⟩ | hex
         · rw [e1, e2]
           dsimp only
           split
           · exact Or.inl ⟨se2, rfl, h2⟩
-          · rcases (SimM.readN l []).1 mode cipher rest se2 sp2 h2 with ⟨r2, se3, sp3, e3, e4, h3⟩ | hex2
+          · rcases (SimM.readN l []).1 dl mode cipher rest se2 sp2 h2 with ⟨r2, se3, sp3, e3, e4, h3⟩ | hex2
             · rw [e3, e4]
               dsimp only
               repeat' split
@@ -616,9 +616,9 @@ theorem readstringCore_sim (vm : VM) (d : Nat) {se sp : Scanner} (h : Sim mode c
     · exact Or.inl ⟨se, rfl, h⟩
   · exact Or.inl ⟨se, rfl, h⟩
 
-theorem bReadstring_sim {b : State} {se : Scanner} (hsim : Sim mode cipher rest se b.scanner)
+theorem bReadstring_sim {b : State} {se : Scanner} (hsim : SimL dl mode cipher rest se b.scanner)
     (hne : ¬ Exhausted (bReadstring b).1.scanner) :
-    Same mode cipher rest (bReadstring { b with scanner := se }) (bReadstring b) := by
+    Same dl mode cipher rest (bReadstring { b with scanner := se }) (bReadstring b) := by
   rcases readstringCore_sim b.vm b.scannerDepth hsim with ⟨se', e, hs'⟩ | hex
   · unfold bReadstring
     dsimp only
@@ -626,9 +626,9 @@ theorem bReadstring_sim {b : State} {se : Scanner} (hsim : Sim mode cipher rest 
     exact Same.mk' ⟨hs', rfl⟩
   · exact absurd hex hne
 
-theorem step_callBuiltin {f m : Nat} (ih : AllSim mode cipher rest f m) (a b : State) (id : String)
-    (hs : StSim mode cipher rest a b) (hsafe : Safe (.call (f + 1) m b id)) :
-    Same mode cipher rest (callBuiltin (f + 1) m a id) (callBuiltin (f + 1) m b id) := by
+theorem step_callBuiltin {f m : Nat} (ih : AllSim dl mode cipher rest f m) (a b : State) (id : String)
+    (hs : StSim dl mode cipher rest a b) (hsafe : Safe (.call (f + 1) m b id)) :
+    Same dl mode cipher rest (callBuiltin (f + 1) m a id) (callBuiltin (f + 1) m b id) := by
   obtain ⟨se, rfl, hsim⟩ := hs.elim
   unfold callBuiltin
   dsimp only
@@ -736,7 +736,7 @@ theorem step_callBuiltin {f m : Nat} (ih : AllSim mode cipher rest f m) (a b : S
 /-- **the interpreter cannot tell an eexec section from its plaintext**: every function of the mutual block, run on
 states that differ only in `Sim`-related scanners, returns the same result and related states, as long as the plain
 run meets no `Bad` event -/
-theorem allSim (m : Nat) : ∀ f, AllSim mode cipher rest f m := by
+theorem allSim (m : Nat) : ∀ f, AllSim dl mode cipher rest f m := by
   intro f
   induction f with
   | zero =>
@@ -780,13 +780,13 @@ systemdict pushed), and then cuts the dictionary stack back — provided the pla
 theorem eexec_operator_core (fuel m : Nat) (a0 : State) (st : List Obj) (s1 sp1 : Scanner)
     (hst : a0.vm.stack = .file :: st) (hdepth : a0.scannerDepth ≠ 0)
     (hbegin : Scan.beginEexec a0.scanner = (.ok (), s1))
-    (hsim : Sim mode cipher rest s1 sp1)
+    (hsim : SimL dl mode cipher rest s1 sp1)
     (hsafe : Safe (.sRun fuel m (plainState a0 st sp1))) :
-    ∃ seF, Sim mode cipher rest seF (scanRun fuel m (plainState a0 st sp1)).1.scanner ∧
+    ∃ seF, SimL dl mode cipher rest seF (scanRun fuel m (plainState a0 st sp1)).1.scanner ∧
       callBuiltin (fuel + 1) m a0 "eexec" =
         closeSection a0.vm.dictStack.length (scanRun fuel m (plainState a0 st sp1)).1
           (scanRun fuel m (plainState a0 st sp1)).2 seF := by
-  have h1 := (allSim (mode := mode) (cipher := cipher) (rest := rest) m fuel).sRun
+  have h1 := (allSim (dl := dl) (mode := mode) (cipher := cipher) (rest := rest) m fuel).sRun
     { plainState a0 st sp1 with scanner := s1 } (plainState a0 st sp1) ⟨hsim, rfl⟩ hsafe
   generalize hb : scanRun fuel m (plainState a0 st sp1) = pb at h1 ⊢
   generalize ha : scanRun fuel m { plainState a0 st sp1 with scanner := s1 } = pa at h1
@@ -810,13 +810,15 @@ theorem eexec_operator_core (fuel m : Nat) (a0 : State) (st : List Obj) (s1 sp1 
 
 /-- when the section was closed (`closefile`, or the scan loop ran to the end) and every plaintext byte has been
 decrypted, the scanner the operator leaves is the plain run's final scanner continued with the clear text `rest`
-(only `src` and the cipher register differ from the plain scanner) -/
-theorem closeSection_at_end {k : Nat} {bF : State} {rF : Res} {seF : Scanner}
-    (h : Sim mode cipher rest seF bF.scanner) (hend : bF.scanner.src = []) (hr : rF = .ok ∨ rF = .err .eof) :
+(only `src`, the cipher register and — by the constant `dl` — the line counter differ from the plain scanner) -/
+theorem closeSection_at_end_line {k : Nat} {bF : State} {rF : Res} {seF : Scanner}
+    (h : SimL dl mode cipher rest seF bF.scanner) (hend : bF.scanner.src = []) (hr : rF = .ok ∨ rF = .err .eof) :
     closeSection k bF rF seF =
-      okS { bF with vm := truncDictStack bF.vm k, scanner := { bF.scanner with src := rest, r := seF.r } } := by
-  have e : ({ seF with eexec := 0 } : Scanner) = { bF.scanner with src := rest, r := seF.r } := by
-    have h1 := h.endEexec_at_end hend
+      okS { bF with vm := truncDictStack bF.vm k,
+                    scanner := { bF.scanner with src := rest, r := seF.r, line := bF.scanner.line + dl } } := by
+  have e : ({ seF with eexec := 0 } : Scanner) =
+      { bF.scanner with src := rest, r := seF.r, line := bF.scanner.line + dl } := by
+    have h1 := h.endEexec_at_end_line hend
     rw [endEexec_run] at h1
     exact (Prod.mk.inj h1).2
   unfold closeSection
@@ -824,10 +826,18 @@ theorem closeSection_at_end {k : Nat} {bF : State} {rF : Res} {seF : Scanner}
   · dsimp only; rw [e]
   · dsimp only; rw [e]
 
-/-- the plain scanner that stands at the beginning of the plaintext: the position of the clear scanner `s0` advanced
-over `skipped` (white space and the decrypted random prefix), nothing peeked, source `plain` -/
+/-- … with equal line counters (only `src` and the cipher register differ from the plain scanner) -/
+theorem closeSection_at_end {mode : Nat} {cipher rest : List UInt8} {k : Nat} {bF : State} {rF : Res} {seF : Scanner}
+    (h : Sim mode cipher rest seF bF.scanner) (hend : bF.scanner.src = []) (hr : rF = .ok ∨ rF = .err .eof) :
+    closeSection k bF rF seF =
+      okS { bF with vm := truncDictStack bF.vm k, scanner := { bF.scanner with src := rest, r := seF.r } } :=
+  closeSection_at_end_line h hend hr
+
+/-- the plain scanner that stands at the beginning of the plaintext: the line counter of the clear scanner `s0`
+advanced over `skipped` (white space and the decrypted random prefix), column 0, `crSeen` off, nothing peeked,
+source `plain` -/
 def plainStart (s0 : Scanner) (skipped : List UInt8) (r : UInt16) (plain : List UInt8) : Scanner :=
-  ov [] plain 0 r false (bumps s0 skipped)
+  { ov [] plain 0 r false (bumps s0 skipped) with col := 0, crSeen := false }
 
 theorem plainOf_afterBegin (s0 : Scanner) (mode : Nat) (skipped : List UInt8) (r : UInt16) (src plain : List UInt8) :
     plainOf (afterBegin s0 mode skipped r src) plain = plainStart s0 skipped r plain := rfl
@@ -891,6 +901,169 @@ theorem eexec_operator_hex (fuel m : Nat) (a0 : State) (st : List Obj) (ws pre p
 
 end
 
+/-! ### independence of the random prefix -/
+
+section
+open PsVerif.Model.Cipher
+
+/-- **binary sections, plain run independent of the prefix**: as `eexec_operator_binary`, with the plain scanner
+`plainStart0 a0.scanner ws plain` (column 0, `crSeen` off, line counter after `ws`), which does not mention `pre` -/
+theorem eexec_operator_binary0 (fuel m : Nat) (a0 : State) (st : List Obj) (ws pre plain rest : List UInt8)
+    (hst : a0.vm.stack = .file :: st) (hdepth : a0.scannerDepth ≠ 0)
+    (hc : Clear a0.scanner) (hpk : a0.scanner.peek.length ≤ 4) (hpre : pre.length = 4)
+    (hws : ∀ x ∈ ws, Scan.isEexecSpace x = true)
+    (hlegal : BinaryLegal (encrypt eexecR (pre ++ plain)))
+    (hs : a0.scanner.peek ++ a0.scanner.src = ws ++ binaryLayout (encrypt eexecR (pre ++ plain)) ++ rest)
+    (hsafe : Safe (.sRun fuel m (plainState a0 st (plainStart0 a0.scanner ws plain)))) :
+    ∃ seF, SimL (prefixLines a0.scanner ws pre) 2 (encrypt eexecR (pre ++ plain)) rest seF
+        (scanRun fuel m (plainState a0 st (plainStart0 a0.scanner ws plain))).1.scanner ∧
+      callBuiltin (fuel + 1) m a0 "eexec" =
+        closeSection a0.vm.dictStack.length (scanRun fuel m (plainState a0 st (plainStart0 a0.scanner ws plain))).1
+          (scanRun fuel m (plainState a0 st (plainStart0 a0.scanner ws plain))).2 seF := by
+  obtain ⟨s1, hb, _, hsim⟩ := eexec_begin_binary0 a0.scanner ws pre plain rest hc hpk hpre hws hlegal hs
+  exact eexec_operator_core fuel m a0 st _ _ hst hdepth hb hsim hsafe
+
+/-- **hexadecimal sections, plain run independent of the prefix** -/
+theorem eexec_operator_hex0 (fuel m : Nat) (a0 : State) (st : List Obj) (ws pre plain t rest : List UInt8)
+    (hst : a0.vm.stack = .file :: st) (hdepth : a0.scannerDepth ≠ 0)
+    (hc : Clear a0.scanner) (hpk : a0.scanner.peek.length ≤ 4) (hpre : pre.length = 4)
+    (hws : ∀ x ∈ ws, Scan.isEexecSpace x = true)
+    (hlay : HexLayout (encrypt eexecR (pre ++ plain)) t)
+    (hs : a0.scanner.peek ++ a0.scanner.src = ws ++ t ++ rest)
+    (hsafe : Safe (.sRun fuel m (plainState a0 st (plainStart0 a0.scanner ws plain)))) :
+    ∃ seF, SimL (prefixLines a0.scanner ws pre) 1 (encrypt eexecR (pre ++ plain)) rest seF
+        (scanRun fuel m (plainState a0 st (plainStart0 a0.scanner ws plain))).1.scanner ∧
+      callBuiltin (fuel + 1) m a0 "eexec" =
+        closeSection a0.vm.dictStack.length (scanRun fuel m (plainState a0 st (plainStart0 a0.scanner ws plain))).1
+          (scanRun fuel m (plainState a0 st (plainStart0 a0.scanner ws plain))).2 seF := by
+  obtain ⟨s1, t', hb, _, _, hsim⟩ := eexec_begin_hex0 a0.scanner ws pre plain t rest hc hpk hpre hws hlay hs
+  exact eexec_operator_core fuel m a0 st _ _ hst hdepth hb hsim hsafe
+
+end
+
+/-- the scanner fields on which the outcomes for two prefixes agree whatever happens in the section -/
+def ScAgree (s s' : Scanner) : Prop :=
+  s.peek = s'.peek ∧ s.col = s'.col ∧ s.crSeen = s'.crSeen ∧ s.dsc = s'.dsc ∧ s.err = s'.err ∧ s.fault = s'.fault ∧
+    s.eexec = s'.eexec ∧ s.regurgitate = s'.regurgitate
+
+/-- a scanner without its line counter and cipher register -/
+def forgetLineR (s : Scanner) : Scanner := { s with line := 0, r := 0 }
+
+theorem plainStart0_core (s0 : Scanner) (ws plain : List UInt8) :
+    plainStart0 s0 ws plain = plainStart0 (core s0) ws plain := by
+  unfold plainStart0
+  rw [bumps_core]
+  rfl
+
+/-- what "the outcome does not depend on the prefix" means for two calls of `eexec` from the interpreter state `a0`
+with the scanners `sc1`, `sc2`, where `pF` is the outcome of the plain run: same result; same interpreter state up
+to the scanner (operand stack, heap, dictionary stack, `numOps`, collected DSC comments `State.dsc`, …); scanners
+that agree in peek buffer, column, `crSeen`, DSC comments, sticky error, fault, mode, replay flag; and, if the
+section was closed with the plaintext decrypted completely, scanners equal up to line counter and cipher register -/
+def PrefixIndependent (fuel m : Nat) (a0 : State) (sc1 sc2 : Scanner) (pF : State × Res) : Prop :=
+  (callBuiltin (fuel + 1) m { a0 with scanner := sc1 } "eexec").2 =
+      (callBuiltin (fuel + 1) m { a0 with scanner := sc2 } "eexec").2 ∧
+    (callBuiltin (fuel + 1) m { a0 with scanner := sc2 } "eexec").1 =
+      { (callBuiltin (fuel + 1) m { a0 with scanner := sc1 } "eexec").1 with
+        scanner := (callBuiltin (fuel + 1) m { a0 with scanner := sc2 } "eexec").1.scanner } ∧
+    ScAgree (callBuiltin (fuel + 1) m { a0 with scanner := sc1 } "eexec").1.scanner
+      (callBuiltin (fuel + 1) m { a0 with scanner := sc2 } "eexec").1.scanner ∧
+    (pF.1.scanner.src = [] → (pF.2 = .ok ∨ pF.2 = .err .eof) →
+      forgetLineR (callBuiltin (fuel + 1) m { a0 with scanner := sc1 } "eexec").1.scanner =
+        forgetLineR (callBuiltin (fuel + 1) m { a0 with scanner := sc2 } "eexec").1.scanner)
+
+/-- **the outcome of the operator does not depend on what stands in front of the plaintext.** Two calls of `eexec`
+from the same interpreter state `a0`, with scanners `sc1`, `sc2` whose sections (same mode, any cipher texts, any
+layouts, any prefixes) are `SimL`-related to the SAME plain scanner `sp1`: `PrefixIndependent`. -/
+theorem eexec_prefix_independent_core {dl1 dl2 mode : Nat} {c1 c2 rest : List UInt8}
+    (fuel m : Nat) (a0 : State) (st : List Obj) (sc1 sc2 s1 s2 sp1 : Scanner)
+    (hst : a0.vm.stack = .file :: st) (hdepth : a0.scannerDepth ≠ 0)
+    (hb1 : Scan.beginEexec sc1 = (.ok (), s1)) (hb2 : Scan.beginEexec sc2 = (.ok (), s2))
+    (h1 : SimL dl1 mode c1 rest s1 sp1) (h2 : SimL dl2 mode c2 rest s2 sp1)
+    (hsafe : Safe (.sRun fuel m (plainState a0 st sp1))) :
+    PrefixIndependent fuel m a0 sc1 sc2 (scanRun fuel m (plainState a0 st sp1)) := by
+  unfold PrefixIndependent
+  obtain ⟨seF1, g1, e1⟩ := eexec_operator_core fuel m { a0 with scanner := sc1 } st s1 sp1 hst hdepth hb1 h1 hsafe
+  obtain ⟨seF2, g2, e2⟩ := eexec_operator_core fuel m { a0 with scanner := sc2 } st s2 sp1 hst hdepth hb2 h2 hsafe
+  have ep1 : plainState { a0 with scanner := sc1 } st sp1 = plainState a0 st sp1 := rfl
+  have ep2 : plainState { a0 with scanner := sc2 } st sp1 = plainState a0 st sp1 := rfl
+  rw [ep1] at g1 e1
+  rw [ep2] at g2 e2
+  rw [e1, e2]
+  generalize scanRun fuel m (plainState a0 st sp1) = pF at g1 g2 ⊢
+  obtain ⟨bF, rF⟩ := pF
+  dsimp only at g1 g2 ⊢
+  have hagree : ScAgree seF1 seF2 ∧ ScAgree { seF1 with eexec := 0 } { seF2 with eexec := 0 } := by
+    refine ⟨⟨g1.peek_eq.trans g2.peek_eq.symm, g1.col_eq.trans g2.col_eq.symm, g1.crSeen_eq.trans g2.crSeen_eq.symm,
+      g1.dsc_eq.trans g2.dsc_eq.symm, g1.err_eq.trans g2.err_eq.symm, g1.fault_eq.trans g2.fault_eq.symm,
+      g1.eexec_e.trans g2.eexec_e.symm, g1.reg_e.trans g2.reg_e.symm⟩,
+      ⟨g1.peek_eq.trans g2.peek_eq.symm, g1.col_eq.trans g2.col_eq.symm, g1.crSeen_eq.trans g2.crSeen_eq.symm,
+      g1.dsc_eq.trans g2.dsc_eq.symm, g1.err_eq.trans g2.err_eq.symm, g1.fault_eq.trans g2.fault_eq.symm,
+      rfl, g1.reg_e.trans g2.reg_e.symm⟩⟩
+  refine ⟨?_, ?_, ?_, ?_⟩
+  · unfold closeSection
+    cases rF with
+    | err e => cases e <;> rfl
+    | _ => rfl
+  · unfold closeSection
+    cases rF with
+    | err e => cases e <;> rfl
+    | _ => rfl
+  · unfold closeSection
+    cases rF with
+    | err e => cases e <;> first | exact hagree.1 | exact hagree.2
+    | ok => exact hagree.2
+    | fuel => exact hagree.1
+  · intro hend hr
+    rw [closeSection_at_end_line g1 hend hr, closeSection_at_end_line g2 hend hr]
+    rfl
+
+section
+open PsVerif.Model.Cipher
+
+theorem clear_of_core {sc1 sc2 : Scanner} (hcore : core sc1 = core sc2) (hc : Clear sc1) : Clear sc2 :=
+  ⟨(congrArg Scanner.eexec hcore).symm.trans hc.1, (congrArg Scanner.regurgitate hcore).symm.trans hc.2⟩
+
+/-- **binary sections: the outcome does not depend on the four lead bytes.** `sc1`, `sc2` are the same clear scanner
+(`core`: everything but the pending input) before `ws ++ encrypt (pre_i ++ plain) ++ rest` for two legal prefixes. -/
+theorem eexec_prefix_independent_binary (fuel m : Nat) (a0 : State) (st : List Obj) (sc1 sc2 : Scanner)
+    (ws pre1 pre2 plain rest : List UInt8)
+    (hst : a0.vm.stack = .file :: st) (hdepth : a0.scannerDepth ≠ 0)
+    (hcore : core sc1 = core sc2) (hc : Clear sc1)
+    (hpk1 : sc1.peek.length ≤ 4) (hpk2 : sc2.peek.length ≤ 4) (hpre1 : pre1.length = 4) (hpre2 : pre2.length = 4)
+    (hws : ∀ x ∈ ws, Scan.isEexecSpace x = true)
+    (hl1 : BinaryLegal (encrypt eexecR (pre1 ++ plain))) (hl2 : BinaryLegal (encrypt eexecR (pre2 ++ plain)))
+    (hs1 : sc1.peek ++ sc1.src = ws ++ binaryLayout (encrypt eexecR (pre1 ++ plain)) ++ rest)
+    (hs2 : sc2.peek ++ sc2.src = ws ++ binaryLayout (encrypt eexecR (pre2 ++ plain)) ++ rest)
+    (hsafe : Safe (.sRun fuel m (plainState a0 st (plainStart0 sc1 ws plain)))) :
+    PrefixIndependent fuel m a0 sc1 sc2 (scanRun fuel m (plainState a0 st (plainStart0 sc1 ws plain))) := by
+  obtain ⟨s1, hb1, _, g1⟩ := eexec_begin_binary0 sc1 ws pre1 plain rest hc hpk1 hpre1 hws hl1 hs1
+  obtain ⟨s2, hb2, _, g2⟩ := eexec_begin_binary0 sc2 ws pre2 plain rest (clear_of_core hcore hc) hpk2 hpre2 hws hl2 hs2
+  have e : plainStart0 sc2 ws plain = plainStart0 sc1 ws plain := by
+    rw [plainStart0_core sc2, plainStart0_core sc1, hcore]
+  rw [e] at g2
+  exact eexec_prefix_independent_core fuel m a0 st sc1 sc2 s1 s2 _ hst hdepth hb1 hb2 g1 g2 hsafe
+
+/-- **hexadecimal sections: the outcome does not depend on the four lead bytes** (nor on the layouts `t1`, `t2`) -/
+theorem eexec_prefix_independent_hex (fuel m : Nat) (a0 : State) (st : List Obj) (sc1 sc2 : Scanner)
+    (ws pre1 pre2 plain t1 t2 rest : List UInt8)
+    (hst : a0.vm.stack = .file :: st) (hdepth : a0.scannerDepth ≠ 0)
+    (hcore : core sc1 = core sc2) (hc : Clear sc1)
+    (hpk1 : sc1.peek.length ≤ 4) (hpk2 : sc2.peek.length ≤ 4) (hpre1 : pre1.length = 4) (hpre2 : pre2.length = 4)
+    (hws : ∀ x ∈ ws, Scan.isEexecSpace x = true)
+    (hl1 : HexLayout (encrypt eexecR (pre1 ++ plain)) t1) (hl2 : HexLayout (encrypt eexecR (pre2 ++ plain)) t2)
+    (hs1 : sc1.peek ++ sc1.src = ws ++ t1 ++ rest) (hs2 : sc2.peek ++ sc2.src = ws ++ t2 ++ rest)
+    (hsafe : Safe (.sRun fuel m (plainState a0 st (plainStart0 sc1 ws plain)))) :
+    PrefixIndependent fuel m a0 sc1 sc2 (scanRun fuel m (plainState a0 st (plainStart0 sc1 ws plain))) := by
+  obtain ⟨s1, _, hb1, _, _, g1⟩ := eexec_begin_hex0 sc1 ws pre1 plain t1 rest hc hpk1 hpre1 hws hl1 hs1
+  obtain ⟨s2, _, hb2, _, _, g2⟩ := eexec_begin_hex0 sc2 ws pre2 plain t2 rest (clear_of_core hcore hc) hpk2 hpre2 hws hl2 hs2
+  have e : plainStart0 sc2 ws plain = plainStart0 sc1 ws plain := by
+    rw [plainStart0_core sc2, plainStart0_core sc1, hcore]
+  rw [e] at g2
+  exact eexec_prefix_independent_core fuel m a0 st sc1 sc2 s1 s2 _ hst hdepth hb1 hb2 g1 g2 hsafe
+
+end
+
 /-! ### tools for proving `Safe` of a concrete run -/
 
 theorem sub_call_id {f m : Nat} {s : State} {id : String} {c' : Call} (h : Sub (.call f m s id) c') :
@@ -934,5 +1107,10 @@ theorem safe_op_token {f m : Nat} {s : State} {n id : String}
 #print axioms eexec_operator_binary
 #print axioms eexec_operator_hex
 #print axioms closeSection_at_end
+#print axioms eexec_operator_binary0
+#print axioms eexec_operator_hex0
+#print axioms eexec_prefix_independent_core
+#print axioms eexec_prefix_independent_binary
+#print axioms eexec_prefix_independent_hex
 
 end PsVerif.Proofs.EexecInterp
